@@ -535,19 +535,26 @@ def t_linear_bytes(rec, seed, tier):
         o_linear_bytes(rec, {"n": n, "pairs": pairs}, soft=True)
 
 
-def t_exh_str(rec, seed, tier):
+def t_exh_str(rec, seed, tier, shard=0, nshards=1):
     limit = 200000 if tier == "quick" else 20000000
-    k = 0
+    work = []
     for cs in ALPHABETS + [a.encode("latin-1") for a in ALPHABETS if a.isascii()]:
         N = len(cs)
         for count in range(0, 20):
             if N**count > limit:
                 break
-            case = {"charset": cs, "count": count, "limit": limit}
-            if k % 7 == 0:
-                rec.sample("exhaustive_str", {"charset_size": N, "count": count, "type": type(cs).__name__})
-            k += 1
-            o_exh_str(rec, case, soft=True)
+            work.append((N**count, len(work), cs, count))
+    # biggest enumerations first, dealt round-robin to the shards
+    work.sort(key=lambda w: (-w[0], w[1]))
+    for k, (_, _, cs, count) in enumerate(work):
+        if k % nshards != shard:
+            continue
+        case = {"charset": cs, "count": count, "limit": limit}
+        if k % 7 == 0:
+            rec.sample("exhaustive_str", {"charset_size": len(cs), "count": count, "type": type(cs).__name__})
+        o_exh_str(rec, case, soft=True)
+    if shard:
+        return
     for cs in ("x", b"x"):
         o_exh_str(rec, {"charset": cs, "count": 5}, soft=True)
     st, r = call(lambda: _gr()[1](ScriptedRandom([]), "", 3))
@@ -703,9 +710,11 @@ def tasks(tier):
         for lo in range(0, 1 << 24, 1 << 20):
             ts.append({"name": f"exh-bytes-3-{lo >> 20:02d}", "fn": "t_exh_bytes", "kw": {"n": 3, "lo": lo, "hi": lo + (1 << 20)}})
     ts += [
-        {"name": "linear-bytes", "fn": "t_linear_bytes"}, {"name": "exh-str", "fn": "t_exh_str"}, {"name": "pairs-str", "fn": "t_pairs_str"},
+        {"name": "linear-bytes", "fn": "t_linear_bytes"}, {"name": "pairs-str", "fn": "t_pairs_str"},
         {"name": "generators", "fn": "t_generators"}, {"name": "all-salts", "fn": "t_all_salts"}, {"name": "context-salt", "fn": "t_context_salt"},
     ]
+    nsh = 1 if tier == "quick" else 24
+    ts += [{"name": f"exh-str-{i:02d}", "fn": "t_exh_str", "kw": {"shard": i, "nshards": nsh}} for i in range(nsh)]
     for sh in range(4):
         ts.append({"name": f"stat-bytes-{sh}", "fn": "t_stat", "kw": {"kind": "bytes", "shard": sh}})
         ts.append({"name": f"stat-str-{sh}", "fn": "t_stat", "kw": {"kind": "str", "shard": sh}})
